@@ -101,6 +101,7 @@ def run_job(job):
     def wrapped(slf, cd, scores, q, estimand):
         c = orig(slf, cd, scores, q, estimand)
         caps.append({"estimand": estimand, "q": float(q), "scores": [float(x) for x in scores], "weights": [float(x) for x in cd[f"last_election_results_{estimand}"]],
+                     "ids": [str(x) for x in cd["geographic_unit_fips"]] if "geographic_unit_fips" in cd.columns else None,
                      "lb": [float(x) for x in cd["lower_bounds"]], "ub": [float(x) for x in cd["upper_bounds"]],
                      "resid": [float(x) for x in cd[f"residuals_{estimand}"]], "c": float(c), "robust": bool(slf.robust)})
         return c
@@ -174,6 +175,21 @@ def run_job(job):
                 continue
             conf_lo, conf_hi = preds[base_idx]["out"].flatten(), preds[base_idx + 1]["out"].flatten()
             non_lo, non_hi = preds[base_idx + 2]["out"].flatten(), preds[base_idx + 3]["out"].flatten()
+            # the calibration residuals are the units' own relative changes for THIS estimand: (counted - (baseline + 1)) / (baseline + 1)
+            if cp.get("ids") and e in BASECOL:
+                feed_by = {}
+                for f in case["feed"]:
+                    feed_by.setdefault(f["geographic_unit_fips"], f)
+                for uid, rs, w in zip(cp["ids"], cp["resid"], cp["weights"]):
+                    b, f = base.get(uid), feed_by.get(uid)
+                    if b is None or f is None or f.get(f"results_{e}") is None:
+                        continue
+                    last = b[BASECOL[e]] + 1
+                    want_r = (f[f"results_{e}"] - last) / last
+                    if abs(w - last) > 1e-9 * max(1, last) or abs(rs - want_r) > 1e-9 * max(1.0, abs(want_r)):
+                        out["s"].append({"what": f"{e}@{a}: calibration unit {uid} enters with residual {rs} and weight {w}; its own relative change for {e} is {want_r} "
+                                                 f"and its baseline + 1 is {last}", "kind": "residual-def"})
+                        break
             # statement on the calibration frame
             W = sum(cp["weights"])
             corr = cp["c"]
